@@ -456,6 +456,20 @@ async fn run_async(ops: Vec<Vec<String>>, root: PathBuf, tp: Arc<ThreadPool>) ->
                         shard_files.insert(f.metadata.file_hash, f);
                     }
                 }
+                // a session whose records equal an earlier session's (only empty files, or an exact re-upload with nothing
+                // new to store) produces a shard with the same content, hence the same name: no new object appears in the
+                // store, and the session's records are the ones of that earlier shard
+                if new_shards.is_empty() {
+                    for n in list_dir(&shard_dir).iter().filter(|n| n.ends_with(".mdb")) {
+                        let b = std::fs::read(shard_dir.join(n)).unwrap();
+                        let mut rd = Cursor::new(&b);
+                        if let Ok(info) = MDBShardInfo::load_from_reader(&mut rd) {
+                            for f in info.read_all_file_info_sections(&mut rd).unwrap_or_default() {
+                                shard_files.entry(f.metadata.file_hash).or_insert(f);
+                            }
+                        }
+                    }
+                }
                 for n in &new_xorbs {
                     if let Some(hx) = n.strip_prefix("default.") {
                         if let Ok(h) = DataHash::from_hex(hx) {
